@@ -328,6 +328,7 @@ def run_property(prop, tier, scen_list, per_scen, assumptions, rule, extra_jobs=
     findings = common.Findings()
     nviol = 0
     foreign = Counter()
+    foreign_examples = []
     vclauses = Counter()
     for rj in rejects:
         job = by_tid[rj["tid"]]
@@ -337,6 +338,11 @@ def run_property(prop, tier, scen_list, per_scen, assumptions, rule, extra_jobs=
         theirs = [c for c in rj["clauses"] if c not in mine]
         for c in theirs:
             foreign[c] += 1
+            if foreign[c] <= 3:
+                foreign_examples.append("FOREIGN-EXAMPLE clause=%s history=%s/%s/%s step=%d op=%s out=%s args=%s" % (
+                    c, job.get("scenario"), job.get("fam"), job.get("prof"), rj["step"], ev["op"], ev.get("out"),
+                    json.dumps({k: ev[k] for k in ("s", "d", "ign", "agg", "err") if k in ev})[:200])
+                    + " abstract=" + json.dumps([[a.get(k) for k in ("op", "s", "d", "ign", "docix") if a.get(k) is not None] for a in job.get("abstract", [])])[:600])
         unknown = [c for c in mine if findings.match(prop, c, case) is None]
         if unknown:
             nviol += 1
@@ -348,6 +354,8 @@ def run_property(prop, tier, scen_list, per_scen, assumptions, rule, extra_jobs=
                 print("VIOLATION property=%s replay=%s clauses=%s history=%s/%s/%s step=%d op=%s out=%s" % (
                     prop, path, ",".join(unknown), job.get("scenario"), job.get("fam"), job.get("prof"), rj["step"], ev["op"], ev.get("out")))
     findings.report()
+    for line in foreign_examples:
+        print(line)
     for c, n in foreign.items():
         print("FOREIGN-REJECTION clause=%s owners=%s count=%d (reported by the owning property's check, not a verdict for %s)" % (c, sorted(OWN.get(c, [])), n, prop))
     nev = sum(len(r["events"]) for r in results)
